@@ -289,7 +289,14 @@ pub fn op_enc(args: &[&str]) -> String {
     let val = args[4] == "val";
     let ranges = ranges_arg(args[5]);
     let (root, tree, mut ob) = intact_store(kind, &data, bs);
-    corrupt(args[6], &mut data, &mut ob);
+    // `Td<len>`: the data store is shorter than the geometry says (truncated / partial data file)
+    let mut cor = args[6].to_string();
+    if let Some(t) = args[6].split(',').find(|c| c.starts_with("Td")) {
+        data.truncate(t[2..].parse().unwrap());
+        let rest: Vec<&str> = args[6].split(',').filter(|c| !c.starts_with("Td")).collect();
+        cor = if rest.is_empty() { "-".to_string() } else { rest.join(",") };
+    }
+    corrupt(&cor, &mut data, &mut ob);
     match fl {
         "sync" => {
             let mut out = Vec::new();
@@ -331,7 +338,7 @@ pub fn op_enc(args: &[&str]) -> String {
             // framing: Size first, Done | Error last, only Parent / Leaf in between
             let mut flat = Vec::new();
             let n = items.len();
-            let mut framing_ok = n >= 2 && matches!(items[0], mixed::EncodedItem::Size(s) if s == data.len() as u64);
+            let mut framing_ok = n >= 2 && matches!(items[0], mixed::EncodedItem::Size(s) if s == tree.size());
             let mut term = "none".to_string();
             for (i, it) in items.iter().enumerate() {
                 match it {
@@ -756,4 +763,31 @@ pub fn op_valid(args: &[&str]) -> String {
         }
     }
     format!("{} {}", if out.is_empty() { "-".to_string() } else { out.join(",") }, err)
+}
+
+/// `flip <blob> <bs>`: flip / copy between pre- and post-order
+pub fn op_flip(args: &[&str]) -> String {
+    let data = blob(args[0]);
+    let bs = bs_of(args[1]);
+    let pre = PreOrderMemOutboard::create(&data, bs);
+    let post = PostOrderMemOutboard::create(&data, bs);
+    let a = pre.flip();
+    let b = post.flip();
+    let c = a.flip();
+    // async copy pre -> post-order io store -> pre-order memory store
+    let tree = pre.tree;
+    let mut io_post = PostOrderOutboard { root: pre.root, tree, data: BytesMut::new() };
+    let r1 = block_on(fsm::copy(&mut pre.clone(), &mut io_post));
+    let mut back = PreOrderMemOutboard { root: pre.root, tree, data: vec![0u8; tree.outboard_size() as usize] };
+    let r2 = block_on(fsm::copy(&mut io_post, &mut back));
+    format!(
+        "{} {} {} {} {} {}{}",
+        dig(&a.data),
+        dig(&b.data),
+        dig(&c.data),
+        dig(&io_post.data),
+        dig(&back.data),
+        b01(r1.is_ok()),
+        b01(r2.is_ok())
+    )
 }
